@@ -33,7 +33,7 @@ func (k *keeper) keep(c int, m *service.Message) {
 	k.mu.Lock()
 	k.byC[c] = append(k.byC[c], &kept{m: m, body: append([]byte{}, m.JTMessage.Body...), raw: append([]byte{}, m.ExtensionFields.TerminalData...),
 		id: int(h.ID), serial: int(h.SerialNumber), total: int(h.SubPackageSum), no: int(h.SubPackageNo), phone: h.TerminalPhoneNo})
-	k.reads[c]++
+	k.reads[c]++ // (join / unsupported callbacks are counted too: the writer is only ever released earlier)
 	k.cond.Broadcast()
 	k.mu.Unlock()
 }
@@ -181,6 +181,24 @@ func init() {
 			}(t, r.Int63())
 		}
 		wg.Wait()
+		// connections that drop in the middle of a sub-package transfer: the parts were handed to the join
+		// callback (first message) and must keep their content after the connection's cleanup
+		for c := 0; c < 3; c++ {
+			phone := []byte{0x01, 0x30, 0x00, 0x00, 0x09, byte(c)}
+			t := l.dial(phone, 0)
+			for no := 1; no <= 2; no++ {
+				b := make([]byte, 24)
+				for k := range b {
+					b[k] = byte(0x40 + no*8 + k)
+				}
+				t.send(buildFrame(hdrSpec{id: 0x0801, serial: t.nextSerial(), frag: 1, total: 4, no: no, phone: phone, body: b}))
+				time.Sleep(2 * time.Millisecond)
+			}
+			time.Sleep(10 * time.Millisecond)
+			t.close(c%2 == 0)
+			time.Sleep(60 * time.Millisecond)
+			kp.recheck(l, t.idx, "after-close-mid-transfer")
+		}
 		time.Sleep(100 * time.Millisecond)
 		l.dump(a[2])
 	}
